@@ -229,6 +229,8 @@ def stepOps (B : Path) (prev : Option Nat) (c : Nat) (files : Files) : Step → 
   | .mkNew => [.mkdirAll (verDir B c)]
   | .writeFiles => files.map (fun kb => .writeFile (verDir B c ++ [kb.1]) kb.2)
   | .rmStaleNew => [.removeIfExists (targetNew B)]
+  -- source: Symlink(filepath.Base(newDir), target+".new"): a link to a NAME in the link's own
+  -- directory (the base); `Node.link` holds the path such a link resolves to
   | .symlinkNew => [.symlink (verDir B c) (targetNew B)]
   | .renameToTarget => [.rename (targetNew B) (target B)]
   | .rmPrev =>
@@ -258,7 +260,7 @@ def stepOfCall (c : FsCall) : Option Step :=
   else if c = { fn := .mkdirAll, args := [.newDir, .perm], ctx := .top, onErr := .ret } then some .mkNew
   else if c = { fn := .writeFile, args := [.newDirFile, .fileBytes, .perm], ctx := .rangeFiles, onErr := .ret } then some .writeFiles
   else if c = { fn := .remove, args := [.targetNew], ctx := .top, onErr := .retUnlessNotExist } then some .rmStaleNew
-  else if c = { fn := .symlink, args := [.newDir, .targetNew], ctx := .top, onErr := .ret } then some .symlinkNew
+  else if c = { fn := .symlink, args := [.newDirName, .targetNew], ctx := .top, onErr := .ret } then some .symlinkNew
   else if c = { fn := .rename, args := [.targetNew, .target], ctx := .top, onErr := .ret } then some .renameToTarget
   else if c = { fn := .removeAll, args := [.prev], ctx := .ifPrevSet, onErr := .ret } then some .rmPrev
   else none
